@@ -23,7 +23,7 @@ const (
 // The export validates, imports without panic into a fresh store, the definition / binding / pricing / owner /
 // withdraw-address / context queries answer identically and a second export equals the first.
 func VerifC12_Service() {
-	verifExpect("roundtrip", "refunded", "batchStarted")
+	verifExpect("roundtrip", "refunded", "batchStarted", "killed")
 	e := newSvEnv()
 	zero := big.NewInt(0)
 	err := e.k.AddServiceDefinition(e.ctx, svService, "desc", []string{"t1"}, e.owner, "author", c12Schemas)
@@ -68,7 +68,11 @@ func VerifC12_Service() {
 		started = rc.BatchCounter > 0
 	}
 	refunded := false
-	switch verifChoice("later", 3) {
+	switch verifChoice("later", 4) {
+	case 3: // the consumer ends a repeated context for good: it stays in the store as COMPLETED
+		err = e.k.KillRequestContext(e.ctx, id, e.consumer)
+		verifAssume(err == nil)
+		verifCover("killed")
 	case 1: // the first binding is disabled; after the waiting time its deposit may be refunded
 		err = e.k.DisableServiceBinding(e.ctx, svService, e.p1, e.owner)
 		verifAssume(err == nil)
